@@ -22,6 +22,10 @@ patch = os.path.join(out, 'patch.diff')
 # normalise: worktree = HEAD + patch (source only)
 sh('git checkout -- src', cwd=wt)
 rc, o = sh('git apply %s' % patch, cwd=wt); res['patch_applies'] = rc == 0
+if rc != 0 and os.path.exists('/verif/seeded/%s/patch-rebased.diff' % tag):
+    # the agent's worktree predates a later hook/fix commit touching the same lines: use the rebased patch (same change)
+    patch = '/verif/seeded/%s/patch-rebased.diff' % tag
+    rc, o = sh('git apply %s' % patch, cwd=wt); res['patch_applies'] = rc == 0; res['used_rebased_patch'] = True
 runsh = open(os.path.join(out, 'demo/run.sh')).read().strip().splitlines()[-1].replace(orig_wt, wt)
 res['demo_cmd'] = runsh
 rc, o = sh('cargo build --offline -j6 2>&1 | tail -3', cwd=wt); res['builds_with_change'] = 'error' not in o
@@ -53,7 +57,7 @@ for c in checks:
             res['checks'][c]['replay_kind'] = d.get('kind'); res['checks'][c]['first_failing'] = (d.get('failing') or d.get('broken') or [None])[0]
 dst = '/verif/seeded/%s' % tag
 os.makedirs(dst, exist_ok=True)
-shutil.copy(patch, os.path.join(dst, 'patch.diff'))
+shutil.copy(os.path.join(out, 'patch.diff'), os.path.join(dst, 'patch.diff'))
 shutil.rmtree(os.path.join(dst, 'demo'), ignore_errors=True); shutil.copytree(os.path.join(out, 'demo'), os.path.join(dst, 'demo'))
 agent_meta = json.load(open(os.path.join(out, 'meta.json'))) if os.path.exists(os.path.join(out, 'meta.json')) else {}
 meta = {'breaks_property': pid, 'author': 'independent sub-agent given only the property text and a scratch worktree',
